@@ -136,6 +136,20 @@ def replay(hist, n, ra, rt, dt, ignore_exc, variant):
             out.append({"e": "tick", "d": 1})
         elif step[0] == "health":
             env.health[step[1]] = step[2]
+        elif step[0] == "remove_server":
+            # the caller uses the public remove_server() on a server that has not failed: whether the library accepts that or
+            # raises, a call that fails must not have changed the rotation (the hasher seam reports an `rm` if it did)
+            sid = step[1]
+            last = [e for e in out if e.get("e") == "contact" and e.get("s") == sid]
+            records = getattr(hc, "_failed_clients", None)      # only used to choose when to try this step
+            if records is not None and servers[sid - 1] not in records and (not last or last[-1]["ok"]) \
+                    and any(names[sid - 1] == nn for nn in hc.hasher.nodes):
+                del env.events[:]
+                try:
+                    hc.remove_server(servers[sid - 1])
+                except Exception:   # noqa
+                    pass
+                out += env.events       # an `rm` reported by the hasher seam here is judged by the contract
         elif len(step) > 2:
             # a multi-key call whose keys prefer different servers
             ks = list(step[1:])
@@ -197,7 +211,9 @@ def random_hist(rnd, n, length):
     h = []
     for _ in range(length):
         r = rnd.random()
-        if r < 0.1:
+        if r < 0.03:
+            h.append(["remove_server", rnd.randrange(1, n + 1)])
+        elif r < 0.1:
             a, b = rnd.sample(range(1, n + 1), 2)
             h.append(["call", a, b])
         elif r < 0.45:
